@@ -251,16 +251,18 @@ def plan_c17(tier, seed):
                for n, d in (('hsl_sat_def', 'S vs (max-min)/(1-|2L-1|) within 1e-4 for 0.01<=L<=0.99'),
                             ('hsl_hue_def_red', 'H vs hexcone hue, red sextants, 0.01 deg, max-min >= 0.01'),
                             ('hsl_hue_def_green', 'green sextants'), ('hsl_hue_def_blue', 'blue sextants'))]
-    return {'kani': [{'crate_dir': '', 'inject': [KH, KL], 'harnesses': hs, 'timeout': 22000}]}
+    return {'verus': [('u_hsl', {})], 'kani': [{'crate_dir': '', 'inject': [KH, KL], 'harnesses': hs, 'timeout': 22000}]}
 reg('C17', plan=plan_c17, level='proof', min_obligations=200,
-    title='HSL conversion: ranges, lightness definition, grey (S/H definitions and the round trip not decided in the quick tier)',
-    technique='Kani/CBMC loop-free harnesses over every f32 triple of [0,1]^3 on the real lrgb_to_hsl (bit-precise, complete)',
+    title='HSL conversion follows the hexcone model, stays in range and round-trips (exact reals + bit-precise ranges)',
+    technique='Verus exact-real contracts on the real lrgb_to_hsl / hsl_to_lrgb (hexcone definition, L=0/L=1, round-trip lemma); Kani loop-free harnesses over every f32 triple of [0,1]^3 (bit-precise ranges, L definition, grey)',
     text='Complete bit-precise proof over all of [0,1]^3 (three symbolic f32, no loop) that the real lrgb_to_hsl returns H in [0,360), S in [0,1], L in [0,1], L within 1e-6 of (max+min)/2, '
-         'and maps grey to (0,0,g) exactly; both directions are total on arbitrary f32. The S and H hexcone equalities are complete queries too but need > 25 min each and run only in the thorough tier under a timeout '
-         '(a timeout is reported as undecided, never as a violation). HSL->RGB values, L=0/L=1 and the round trip are NOT decided: CBMC models f32 % nondeterministically and the exact-real proof was not built.',
+         'and maps grey to (0,0,g) exactly; both directions are total on arbitrary f32. Exact-real proof (Verus, U-hsl) on the real functions: L = (max+min)/2, S = (max-min)/(1-|2L-1|) (shown <= 1, so the cap only absorbs rounding), '
+         'H = hue by the sextant of the maximum channel wrapped into [0,360) wherever the code\'s EPSILON-fuzzy maximum tests select the true maximum, H in [0,360) for all inputs; hsl_to_lrgb is the hexcone inverse with L=0 -> black and L=1 -> white '
+         'for every H,S; and RGB->HSL->RGB returns the pixel EXACTLY on that region (chroma >= EPSILON, L at least EPSILON from 0 and 1). The bit-precise S/H equalities (> 25 min each) run only in the thorough tier under a timeout. '
+         'NOT decided: the f32 rounding tolerances (1e-4, 0.01 deg, 1e-5) and the EPSILON-wide fuzz zones of the round trip.',
     note=BITPRECISE + '. ' + TOOLS,
-    assumptions=[BITPRECISE],
-    not_decided=['S within 1e-4 and H within 0.01 deg of the hexcone definition (thorough tier only, under timeout)', 'hsl_to_lrgb values, L=0 -> black, L=1 -> white', 'RGB->HSL->RGB round trip within 1e-5'],
+    assumptions=[BITPRECISE, EXACT, 'f32 % is an uninterpreted remainder with the division axiom (ax_rem)'],
+    not_decided=['f32 rounding inside the S (1e-4), H (0.01 deg) and round-trip (1e-5) tolerances: decided under exact reals; bit-precise S/H only in the thorough tier under a timeout', 'round trip inside the EPSILON-wide zones where two channels are within 1.2e-7 of the maximum or chroma < 1.2e-7'],
     design_ref='DESIGN.md §5 C17')
 
 # ------------------------------------------------------------------------------------------- C14 / C15 / C03 (U-dispatch)
